@@ -20,6 +20,9 @@ pub struct Summary {
     pub version_negotiations: usize,
     pub initial_datagrams: usize,
     pub server_datagrams_before_validation: usize,
+    pub migrated_addresses: usize,
+    pub server_datagrams_to_unvalidated_migrated: usize,
+    pub migrated_at_limit: bool,
 }
 
 const CID_LEN: usize = 16;
@@ -51,15 +54,60 @@ pub fn check_amplification(out: &Outcome, obs: &mut Obs) -> Result<Summary, Fail
     }
 
     // ---- 3x limit towards each client address until validation
-    for c in &clients {
-        // validation instant: first undamaged datagram from the client that carries a Handshake packet, when it reaches the server
+    // (a) the address a client connects from: validated by the first undamaged datagram from it that carries a Handshake packet;
+    // (b) an address a client moves to later (NAT rebinding / migration): validated when the server has processed a
+    //     PATH_RESPONSE that arrived from it (RFC 9000 8.2, 9.3)
+    let mut targets: Vec<(SocketAddr, u64, bool)> = vec![];
+    // every address client i has used
+    let addrs_of = |i: usize| -> Vec<SocketAddr> {
+        std::iter::once(clients[i]).chain(out.rebinds.iter().filter(|(_, c, _)| *c == i).map(|(_, _, a)| *a)).collect()
+    };
+    for (i, c) in clients.iter().enumerate() {
+        // (a Handshake packet proves that the client processed the server's Initial, which was sent to this address: it
+        // validates this address from whichever address the client sends it, RFC 9000 8.1)
+        let mine = addrs_of(i);
         let t_valid = out
             .net
             .iter()
-            .filter(|n| n.src == *c && n.dst == server && n.intact && !n.deliveries_us.is_empty() && contains(n, PktType::Handshake))
+            .filter(|n| mine.contains(&n.src) && n.dst == server && n.intact && !n.deliveries_us.is_empty() && contains(n, PktType::Handshake))
             .map(|n| n.deliveries_us[0])
             .min()
             .unwrap_or(u64::MAX);
+        targets.push((*c, t_valid, false));
+    }
+    for (_, _, a) in &out.rebinds {
+        let mut last_remote: Option<SocketAddr> = None;
+        let mut t_valid = u64::MAX;
+        for r in out.recs.iter().filter(|r| r.ep == 0) {
+            match &r.ev {
+                crate::rec::Ev::RxDatagram { remote, .. } => last_remote = Some(*remote),
+                crate::rec::Ev::Rx { frames: Ok(fr), .. } if last_remote == Some(*a) && fr.iter().any(|f| matches!(f, crate::wire::WFrame::PathResponse(_))) => {
+                    t_valid = r.t_us;
+                    break;
+                }
+                _ => {}
+            }
+        }
+        // the connection may have *started* from this address (everything sent before the move was lost): then it is the
+        // handshake address and rule (a) applies
+        let started_here = out.recs.iter().any(|r| r.ep == 0 && matches!(&r.ev, crate::rec::Ev::ConnStarted { remote, .. } if remote == a));
+        if started_here {
+            let t_hs = out
+                .net
+                .iter()
+                .filter(|n| n.src == *a && n.dst == server && n.intact && !n.deliveries_us.is_empty() && contains(n, PktType::Handshake))
+                .map(|n| n.deliveries_us[0])
+                .min()
+                .unwrap_or(u64::MAX);
+            t_valid = t_valid.min(t_hs);
+        }
+        targets.push((*a, t_valid, true));
+    }
+    for (c, t_valid, migrated) in &targets {
+        let (c, t_valid) = (c, *t_valid);
+        if *migrated {
+            sum.migrated_addresses += 1;
+        }
         // arrivals at the server from that address: (time, bytes), all copies, damaged ones included (over-count => sound)
         let mut arrivals: Vec<(u64, u64)> = out
             .net
@@ -85,11 +133,35 @@ pub fn check_amplification(out: &Outcome, obs: &mut Obs) -> Result<Summary, Fail
                 credited += 1;
             }
             sum.server_datagrams_before_validation += 1;
+            if *migrated {
+                sum.server_datagrams_to_unvalidated_migrated += 1;
+            }
             if burst.0 != n.t_us {
                 burst = (n.t_us, allowance);
             }
             if tx >= 3 * rx {
-                let key = if allowance > 0 || burst.1 > 0 { "c11:amplification-limit-exceeded:overshoot-forgotten" } else { "c11:amplification-limit-exceeded" };
+                // bytes the server received from the *other* addresses of the same client by now
+                let owner = clients.iter().position(|a| a == c).or_else(|| out.rebinds.iter().find(|(_, _, a)| a == c).map(|(_, i, _)| *i));
+                let rx_other: u64 = match owner {
+                    Some(i) => {
+                        let mine = addrs_of(i);
+                        out.net
+                            .iter()
+                            .filter(|m| m.src != *c && mine.contains(&m.src) && m.dst == server)
+                            .flat_map(|m| m.deliveries_us.iter().map(move |d| (*d, m.len as u64)))
+                            .filter(|(t, _)| *t <= n.t_us)
+                            .map(|(_, b)| b)
+                            .sum()
+                    }
+                    None => 0,
+                };
+                let key = if allowance > 0 || burst.1 > 0 {
+                    "c11:amplification-limit-exceeded:overshoot-forgotten"
+                } else if rx_other > 0 && tx < 3 * (rx + rx_other) + 1500 {
+                    "c11:amplification-limit-exceeded:credit-from-other-address-during-handshake"
+                } else {
+                    "c11:amplification-limit-exceeded"
+                };
                 if !obs.step_over_known(key) {
                     return Err(Fail::new(
                         key,
@@ -102,6 +174,9 @@ pub fn check_amplification(out: &Outcome, obs: &mut Obs) -> Result<Summary, Fail
             }
             if tx + 1500 >= 3 * rx {
                 sum.amplification_limited = true;
+                if *migrated {
+                    sum.migrated_at_limit = true;
+                }
             }
             tx += n.len as u64;
             allowance = allowance.saturating_sub(n.len as u64);
@@ -109,7 +184,7 @@ pub fn check_amplification(out: &Outcome, obs: &mut Obs) -> Result<Summary, Fail
     }
 
     // ---- replies to datagrams that belong to no connection (every address that is not a client, in both directions)
-    let endpoints: Vec<SocketAddr> = std::iter::once(server).chain(clients.iter().copied()).collect();
+    let endpoints: Vec<SocketAddr> = std::iter::once(server).chain(clients.iter().copied()).chain(out.rebinds.iter().map(|(_, _, a)| *a)).collect();
     let mut by_pair: HashMap<(SocketAddr, SocketAddr), Vec<&NetRec>> = HashMap::new();
     for n in &out.net {
         // (endpoint, stranger)
@@ -193,6 +268,10 @@ pub fn oracle(sc: &Scenario, obs: &mut Obs) -> CaseResult {
     obs.class_if(f.handshakes_completed >= 2, "handshake-completed");
     obs.class_if(f.pto_probes > 0, "pto-probes");
     obs.class_if(!sc.strays.is_empty(), "stray-datagrams");
+    obs.class_if(s.migrated_addresses > 0, "client-moved-to-new-address");
+    obs.class_if(s.migrated_addresses > 1, "client-moved-twice");
+    obs.class_if(s.server_datagrams_to_unvalidated_migrated > 0, "server-sent-to-unvalidated-migrated-address");
+    obs.class_if(s.migrated_at_limit, "migrated-address-at-amplification-limit");
     obs.nontrivial(s.amplification_limited || s.stray_replies > 0);
     obs.sample = Some(serde_json::json!({
         "tape_up": sc.net.tape_up.iter().take(12).collect::<Vec<_>>(), "tape_down": sc.net.tape_down.iter().take(12).collect::<Vec<_>>(),
@@ -254,6 +333,33 @@ pub fn scenario() -> impl Strategy<Value = Scenario> {
         }
         sc.strays = strays;
         sc.stateless_reset = true;
+        sc
+    })
+}
+
+/// established connections whose client moves to fresh addresses (once, or several times in quick succession, so that an
+/// address is abandoned before it answered the server's PATH_CHALLENGE) under loss
+pub fn migration_scenario() -> impl Strategy<Value = Scenario> {
+    const MCFG: GenCfg = GenCfg { max_clients: 1, max_streams: 2, max_bytes: 60_000, faults: FaultProfile::Lossy, small_windows_pct: 5, aborts: false, idle_ms: (3_000, 8_000), cap_ms: 20_000, server_initiated: true };
+    let moves = prop::collection::vec((60u32..1_500, prop_oneof![3 => 0u32..8, 2 => 8u32..120, 1 => 120u32..1_000]), 1..4);
+    (gen::scenario(MCFG), moves, prop::collection::vec(prop_oneof![(1_000u32..300_000).prop_map(WStep::PauseUs), (1u32..3_000).prop_map(WStep::Send)], 0..8)).prop_map(|(mut sc, moves, trickle)| {
+        // first move at an absolute instant, the following ones after short gaps
+        let mut t = 0u32;
+        sc.rebinds = moves
+            .into_iter()
+            .enumerate()
+            .map(|(i, (first, gap))| {
+                t = if i == 0 { first } else { t + gap };
+                (0u8, t)
+            })
+            .collect();
+        // a low-rate tail keeps the client talking from its new addresses
+        if let Some(s) = sc.clients[0].conn.streams.first_mut() {
+            s.fwd.steps.extend(trickle);
+        }
+        sc.clients[0].conn.close_code = None;
+        sc.net.tape_repeat = false;
+        sc.net.max_udp_payload = 65_000;
         sc
     })
 }
@@ -330,6 +436,13 @@ pub fn subs() -> Vec<Box<dyn SubCheck>> {
             name: "amplification_generated",
             cases: |t| t.pick(3_000, 150_000),
             strategy: |_t: Tier| scenario(),
+            oracle,
+            max_shrink_iters: 400,
+        }),
+        Box::new(PropCheck::<Scenario, _> {
+            name: "migration_generated",
+            cases: |t| t.pick(1_500, 80_000),
+            strategy: |_t: Tier| migration_scenario(),
             oracle,
             max_shrink_iters: 400,
         }),
